@@ -403,6 +403,20 @@ def run(ctx):
         except Raised as e:
             got_ = f"raises {e.exc_name}{e.exc_args}"
         r3.check(got_ == want_, f"dealias_and_group_headers[{desc}]", f"-> {want_}", dg.loc(), why_fail=repr(got_)[:200])
+    # ... per SHEET: the choices sheet is split by its own headers, whatever the survey sheet uses (evaluated: the
+    # choices block of workbook_to_json with the survey headers in the other style)
+    from .c17 import eval_choices_block
+    for desc, ch_rows, sv_hdr, want_label in (
+            ("choices `label:en`, survey `label::en`", [{"list_name": "l", "name": "a", "label:en": "A", "label:fr": "Af"}], [{"type": None, "name": None, "label::en": None}], {"en": "A", "fr": "Af"}),
+            ("choices `label::en`, survey `label:en`", [{"list_name": "l", "name": "a", "label::en": "A", "label::fr": "Af"}], [{"type": None, "name": None, "label:en": None}], {"en": "A", "fr": "Af"}),
+            ("both `label::en`", [{"list_name": "l", "name": "a", "label::en": "A", "label::fr": "Af"}], [{"type": None, "name": None, "label::en": None}], {"en": "A", "fr": "Af"}),
+            ("choices `label : en` (spaced single colon), survey plain", [{"list_name": "l", "name": "a", "label : en": "A"}], [{"type": None, "name": None, "label": None}], {"en": "A"})):
+        got_, msg_, choices_, _w, blk_ = eval_choices_block(ctx, "C13.R3", ch_rows, survey_header=sv_hdr)
+        if got_ is None:
+            r3.note(f"{msg_}; per-sheet delimiter obligations skipped")
+            break
+        lab_ = ((choices_ or {}).get("l") or [{}])[0].get("label") if isinstance(choices_, dict) else None
+        r3.check(lab_ == want_label, f"choices sheet delimiter[{desc}]", f"the choice's label is {want_label}", w2j3_loc(ctx), why_fail=f"{got_}: label {lab_!r} {msg_[:80]}")
     # type aliases are resolved on the *dealiased* survey rows: the `type` column is only called `type` after the
     # header pass (a sheet may spell it Type / command), so the alias pass must come after it
     w2j3 = ctx.func("pyxform.xls2json:workbook_to_json", "C13.R3")
@@ -465,3 +479,7 @@ def run(ctx):
     from .c20 import warning_census_rule
     rules.append(warning_census_rule(ctx, "C13", "C13.R8"))
     return rules
+
+
+def w2j3_loc(ctx):
+    return ctx.func("pyxform.xls2json:workbook_to_json", "C13.R3").loc()
